@@ -174,7 +174,7 @@ fn gen_script(rng: &mut Rng, id: String) -> GenScript {
     let body = rng.rbytes(200);
     // well-formed requests with hostile header values: a `timeout` that does not parse as u64 counts as
     // absent, an astronomically large one never fires - neither may disturb the serving side
-    const HOSTILE_TIMEOUTS: [&str; 10] = [
+    const HOSTILE_TIMEOUTS: [&str; 15] = [
         "18446744073709551616",
         "18446744073709551615",
         "9223372036854775807000000000",
@@ -185,6 +185,13 @@ fn gen_script(rng: &mut Rng, id: String) -> GenScript {
         "1e9",
         "",
         " 5",
+        // long unparsable values with a multi-byte character straddling small power-of-two offsets (anything
+        // that truncates the value for a log line or an error message by BYTE index would split a character)
+        "0123456789012345678901234567890\u{e9}tail-after-the-accent",
+        "012345678901234567890123456789\u{20ac}tail-after-the-euro",
+        "01234567890123456789012345678\u{1f600}tail-after-the-emoji",
+        "\u{e9}\u{e9}\u{e9}\u{e9}\u{e9}\u{e9}\u{e9}\u{20ac}\u{20ac}\u{20ac}\u{20ac}\u{20ac}\u{20ac}\u{20ac}\u{20ac}\u{20ac}\u{20ac}\u{20ac}\u{1f600}\u{1f600}\u{1f600}\u{1f600}\u{1f600}\u{1f600}\u{1f600}\u{1f600}\u{1f600}\u{1f600}\u{1f600}\u{1f600}\u{1f600}\u{1f600}\u{1f600}\u{1f600}\u{1f600}",
+        "0123456\u{e9}0123456\u{20ac}0123456\u{1f600}0123456789012345678901234567890123456789012345678901234567890\u{e9}\u{e9}\u{e9}",
     ];
     let extra = match rng.below(8) {
         0 | 1 => Some(("k", "v")),
